@@ -45,6 +45,7 @@ pub fn on_deliver_tramp(w: &mut World, u: usize, i: usize, rel_expiry: i64) {
             first: Some(u),
             rec_at_first: Some(rec),
             live_at_first: live,
+            aged_secs: w.aged,
             wall_start: Some(std::time::Instant::now()),
             ..Default::default()
         };
@@ -374,6 +375,13 @@ fn on_tramp_answer(w: &mut World, u: usize, i: usize, kind: &AnsKind, now: u64) 
                     format!("R02|{cause}|Fail|pending={}|complete={}|payrun={}", (pend > 0) as u8, (comp > 0) as u8, payrun as u8),
                     format!("HTLC #{u} for {hex_} failed ({}) while pending={pend} complete={comp} pay_running={payrun}", hex::encode(bytes)),
                 );
+            }
+            // ---- R03d: HTLCs counted for a pay stay held until its fate is known
+            if w.htlcs[u].funding_pay.is_some() {
+                w.stats.eval("R03d", parts_ctx(w, i));
+                if pend > 0 || comp > 0 || payrun {
+                    w.violate("C03", "R03d", format!("R03d|funding-htlc-released|pending={}|complete={}|payrun={}", (pend > 0) as u8, (comp > 0) as u8, payrun as u8), format!("HTLC #{u} was counted for pay({hex_}) and is failed while pending={pend} complete={comp} pay_running={payrun}"));
+                }
             }
             if same_set {
                 // ---- R12c
